@@ -9,6 +9,9 @@ import (
 
 type specErr string
 
+// exprLit wraps an already evaluated value as an expression.
+type exprLit struct{ V Val }
+
 type specEnv struct {
 	w      *World
 	pkg    string
@@ -209,7 +212,25 @@ func (e *specEnv) eval(x Expr) Val {
 			}
 		}
 		e.fail("type %v has no field %s", stT, n.Name)
+	case exprLit:
+		return n.V
 	case EIndex:
+		if oc, ok := n.X.(ECall); ok && oc.Fn == "old" && e.old != nil {
+			// old(m)[k]: the value stored in the old heap
+			idx := e.eval(n.I)
+			saved := e.heap
+			e.heap = e.old
+			v := e.eval(EIndex{oc.Args[0], exprLit{idx}})
+			e.heap = saved
+			return v
+		}
+		if id, ok := n.X.(EIdent); ok && e.st != nil && e.st.x.absRecv != nil {
+			if ab, ok := w.cs.Abstractions[id.Name]; ok && ab.Type == e.st.x.absType {
+				idx := e.eval(n.I)
+				sub := &specEnv{w: w, pkg: ab.Pkg, vars: map[string]Val{ab.Var: *e.st.x.absRecv, ab.Key: idx}, st: e.st, heap: e.heap, old: e.old}
+				return sub.eval(ab.E)
+			}
+		}
 		base := e.eval(n.X)
 		idx := e.eval(n.I)
 		if strings.HasPrefix(base.Sort, "(Array ") {
@@ -346,6 +367,15 @@ func (e *specEnv) evalBin(n EBin) Val {
 			return Val{S: sEq(l.S, r.S), Sort: "Bool"}
 		}
 	case "in":
+		if oc, ok := n.R.(ECall); ok && oc.Fn == "old" && e.old != nil {
+			// k in old(m): membership in the map as it was in the old heap
+			saved := e.heap
+			l := e.eval(n.L)
+			e.heap = e.old
+			v := e.evalBin(EBin{"in", exprLit{l}, oc.Args[0]})
+			e.heap = saved
+			return v
+		}
 		l := e.eval(n.L)
 		if set, ok := n.R.(ESet); ok {
 			var dj []string
